@@ -303,6 +303,14 @@ func (s *Session) onAnnounce(resp *Response, req *Request) {
 }
 
 func (s *Session) onSetup(resp *Response, req *Request) {
+	// 被拒绝的 SETUP 不能改变已协商好的传输参数
+	oldTransport := s.transport
+	defer func() {
+		if resp.StatusCode != StatusOK {
+			s.transport = oldTransport
+		}
+	}()
+
 	// a=control:streamid=1
 	// a=control:rtsp://192.168.1.165/trackID=1
 	// a=control:?ctype=video
